@@ -72,6 +72,9 @@ structure D where
   pans : List Nat := []                -- times at which a timeout callback panicked (newest first)
   panicked : Bool := false             -- a panic is unwinding the current expiry scan
   started : Bool := false
+  stopped : Bool := false              -- the actor was stopped: no `ServiceResponse` reaches the object any more (dead letters);
+                                       -- its run service and expiry timer live on (`onStop` is unreachable: `*actor.Stop` is a
+                                       -- system message), so every other op goes on as before — a history without `response` ops
 
 def lookupD {α : Type} (k : Nat) (l : List (Nat × α)) : Option α := (l.find? (fun e => e.1 == k)).map (·.2)
 
@@ -294,6 +297,18 @@ def stepModel (d : D) (line : String) : D × String :=
       match parseActs ((kv ws "s").getD "").toList [] with
       | ([a], _) => if a.kind == 'P' then (d, "bad-op") else observe (doIssue d a "a.b") "ok"
       | _ => (d, "bad-op")
+    | "stop" => observe { d with stopped := true } "ok"
+    | "burst" =>
+      -- n top-level issues of one script item by one piece of handler code: n `issue` ops (and what their
+      -- synchronous callbacks do) in a row
+      match parseActs ((kv ws "s").getD "").toList [] with
+      | ([a], _) =>
+        match kvNat ws "n" with
+        | some n =>
+          if a.kind == 'P' || n < 1 || n > 300 then (d, "bad-op")
+          else observe ((List.range n).foldl (fun d _ => doIssue d a "a.b") d) "ok"
+        | none => (d, "bad-op")
+      | _ => (d, "bad-op")
     | "preq" =>
       -- the peer with asynchronous API handlers is, for the requester, one more peer that answers when told to
       match parseActs ((kv ws "s").getD "").toList [] with
@@ -309,7 +324,7 @@ def stepModel (d : D) (line : String) : D × String :=
         let d := doIssue d a "remote.hello"
         let d := if peer == "echo" then
             match lookupD inst d.sentId with
-            | some id => if id != 0 then settle { d with s := response d.s id (.ok (some (7000 + inst))) } else d
+            | some id => if id != 0 && !d.stopped then settle { d with s := response d.s id (.ok (some (7000 + inst))) } else d
             | none => d
           else d
         observe d "ok"
@@ -329,12 +344,12 @@ def stepModel (d : D) (line : String) : D × String :=
         | none => observe d "nopeer"
         | some id =>
           -- `ResponseEx` (model: `respondsTo`): a notification is never answered
-          if !respondsTo id true then observe d "ok"
+          if !respondsTo id true || d.stopped then observe d "ok"
           else observe (settle { d with s := response d.s id p }) "ok"
       | _, _ => (d, "bad-op")
     | "inject" =>
       match wireId ws, payloadOf ((kv ws "kind").getD "") ((kvNat ws "w").getD 0) (codeNonzero ws) with
-      | some id, some p => observe (settle { d with s := response d.s id p }) "ok"
+      | some id, some p => if d.stopped then observe d "ok" else observe (settle { d with s := response d.s id p }) "ok"
       | _, _ => (d, "bad-op")
     | "adv" =>
       match kvNat ws "dt" with
@@ -375,6 +390,7 @@ structure SS where
   prevPend : List Nat := []
   pans : List Nat := []        -- times of recovered callback panics: each one excuses one expiry scan
   floods : List (Nat × Nat) := []   -- (end time, length) of the windows in which the service goroutine was parked
+  stopped : Bool := false      -- the requester actor was stopped: responses are dead letters, only the timeout can complete
   poisoned : Bool := false     -- a violation was already reported in this case: the bookkeeping is void
 
 structure CbEv where
@@ -443,15 +459,25 @@ def specStep (st : SS) (line : String) : SS × String :=
         | [] => if (kvNat os "left").getD 0 != 0 then (st, viol "pending-residue" "crowd members left entries behind" op) else (st, "ok")
     | some "restart" =>
       -- a user callback that panics under handleResponse: outside the property's assumptions.  What the restart does is
-      -- fixed by the model (Model/ServiceLife.lean, differential); here only: no completion callback ran twice
-      let cbs := ((obs.splitOn "cb=").drop 1).map fun seg => ((seg.splitOn ";").headD "")
-      let tags := (cbs.map fun seg => (seg.splitOn ",").filter (· ≠ "") |>.map fun e => (e.splitOn ":").headD "").flatten
+      -- fixed by the model (Model/ServiceLife.lean, differential); here the count: no completion callback ran twice, and
+      -- every request issued before or after the restart — except the one whose callback panicked (tag `a`) — has been
+      -- completed once when the op ends (+31 s after the last issue: by its reply, or by the expiry timer of the
+      -- object that holds it, the orphaned one included)
+      if os.head? != some "ok" then ({ st with poisoned := true }, "ok") else
+      let segsOf (key : String) : List String :=
+        (((obs.splitOn key).drop 1).map fun seg => ((seg.splitOn ";").headD "").splitOn "," |>.filter (· ≠ "")).flatten
+      let tags := (segsOf "cb=").map fun e => (e.splitOn ":").headD ""
+      let issued := (segsOf "iss=").map fun e => (e.splitOn ":").headD ""
+      let crashTag := (kv ws "a").getD ""
       let rec dup : List String → Option String
         | [] => none
         | x :: xs => if xs.contains x then some x else dup xs
       match dup tags with
       | some t => ({ st with poisoned := true }, viol "callback-twice" s!"instance {t} completed twice across a restart" op)
-      | none => ({ st with poisoned := true }, "ok")
+      | none =>
+        match issued.find? (fun t => t != crashTag && !tags.contains t) with
+        | some t => ({ st with poisoned := true }, viol "never-completed" s!"request {t}, outstanding across a restart of the requester, was never completed (31 s after the last issue)" op)
+        | none => ({ st with poisoned := true }, "ok")
     | some opk =>
       if st.poisoned || os.head? == some "bad-op" then (st, "ok") else
       -- D22: a reply whose type cannot be decoded must complete the request it answers, once, with an error;
@@ -490,14 +516,15 @@ def specStep (st : SS) (line : String) : SS × String :=
       -- 2. the response this op delivers: (target id, expected class)
       -- `areq peer=echo`: the peer answers the request issued by this very op with TestHello{7000+tag}
       let echoInst : Option Inst :=
-        if opk == "areq" && kv ws "peer" == some "echo" then
+        if opk == "areq" && kv ws "peer" == some "echo" && !st.stopped then
           match newInsts.head? with
           | some n => insts.find? fun i => i.tag == n.tag && (i.kind == 'R' || i.kind == 'r') && i.id.isSome && i.id != some 0
           | none => none
         else none
       let target : Option (Nat × String) :=
         let cls := wantClass ((kv ws "kind").getD "") ((kvNat ws "w").getD 0) (codeNonzero ws)
-        if opk == "deliver" then
+        if st.stopped then none    -- no response is processed by a stopped actor
+        else if opk == "deliver" then
           match (kvNat ws "k").bind (getInst st.insts) with
           | some i => match i.id with
             | some id => if id != 0 && os.head? == some "ok" then some (id, cls) else none
@@ -579,7 +606,7 @@ def specStep (st : SS) (line : String) : SS × String :=
       let pendViol : Option String := firstSome (pend.map fun id =>
         match insts.filter (fun i => i.id == some id && (i.kind == 'R' || i.kind == 'r')) with
         | [] =>
-          if (opk == "req" && (((kv ws "s").getD "") == "N" || ((kv ws "s").getD "") == "n")) || opk == "anotify" then
+          if ((opk == "req" || opk == "burst") && (((kv ws "s").getD "") == "N" || ((kv ws "s").getD "") == "n")) || opk == "anotify" then
             some (viol "notify-created-pending" s!"a notification registered pending id {id}" op)
           else some (viol "pending-residue" s!"pending id {id} belongs to no outstanding request" op)
         | is =>
@@ -597,14 +624,14 @@ def specStep (st : SS) (line : String) : SS × String :=
           else none
         | none => none)
       let ntfViol : Option String :=
-        if ((opk == "req" && (((kv ws "s").getD "") == "N" || ((kv ws "s").getD "") == "n")) || opk == "anotify")
+        if (((opk == "req" || opk == "burst") && (((kv ws "s").getD "") == "N" || ((kv ws "s").getD "") == "n")) || opk == "anotify")
             && sortNat pend != sortNat st.prevPend then
           some (viol "notify-created-pending" s!"a notification changed the pending table {st.prevPend} -> {pend}" op) else none
       -- after a reply of an unregistered type: a missing / repeated / wrong-class completion of the request it answers is D22's signature
       let d22 (v : Option String) : Option String :=
         if badType then v.map (fun x => x.replace "VIOLATION C01/" "VIOLATION C01/undecodable-reply-crashes-requester was:") else v
       let res := firstSome [badSent, d22 cbViol, serFail, ntfViol, d22 missedAnswer, xMissing, pendViol, lostViol]
-      ({ now := now, insts := insts, prevPend := pend, pans := pans, floods := floods, poisoned := res.isSome }, res.getD "ok")
+      ({ now := now, insts := insts, prevPend := pend, pans := pans, floods := floods, stopped := st.stopped || opk == "stop", poisoned := res.isSome }, res.getD "ok")
     | none => (st, "ok")
   | _ => (st, "bad-line")
 
